@@ -184,6 +184,26 @@ class RunoutMonitor(Monitor):
                         f'{b} starting boards x {r} run-outs (selections '
                         f'{self.sel})')
             return
+        # no card twice: boards and the hands still in
+        seen = [c for cards in (list(s.get_board_cards(j))
+                                for j in range(s.board_count))
+                for c in cards if c]
+        shared = sum(st.board_dealing_count
+                     for st in s.streets[:self.allin_street + 1])
+        # (the r run-outs of a starting board share its first cards)
+        uniq = []
+        for j in range(s.board_count):
+            cards = [c for c in s.get_board_cards(j) if c]
+            # (boards k*r .. k*r+r-1 are the run-outs of starting board k)
+            uniq.extend(cards if j % r == 0 else cards[shared:])
+        uniq += [c for i in s.player_indices if s.statuses[i]
+                 for c in s.hole_cards[i] if c]
+        dup = sorted({repr(c) for c in uniq if uniq.count(c) > 1})
+        if dup:
+            ctx.violate(f'card(s) {dup} appear twice among the boards and '
+                        f'the hands still in (boards '
+                        f'{[list(s.get_board_cards(j)) for j in range(s.board_count)]}, '
+                        f'hands {[list(h) for h in s.hole_cards]})')
         # board structure
         ctx.counters['terminal_board_structures_checked'] += 1
         per_board = sum(st.board_dealing_count for st in s.streets)
@@ -292,6 +312,11 @@ def gen_kwargs(rng):
 
 
 def pol_tweak(pol, cfg, rng):
+    if cfg['mode'] == 'CASH_GAME' and rng.random() < 0.15:
+        pol['partial_show'] = True       # players table part of their hand
+        pol['empty_show'] = True
+        cfg['autos'] = [a for a in cfg['autos']
+                        if a != 'HOLE_CARDS_SHOWING_OR_MUCKING']
     pol['policy'] = rng.choice(['allin', 'allin', 'aggressive', 'passive'])
     pol['runout_pref'] = rng.choice([1, 2, 2, 3, 3])
 
